@@ -33,7 +33,7 @@
    every run and proved equal to Model/Matrix.v. *)
 From Coq Require Import List ZArith NArith Bool Arith.
 From EasyML Require Import Base.Sx Model.Matrix Proofs.C11Spec Proofs.C11Ops Proofs.C11Transpose Proofs.C11P.
-From EasyML Require Import Model.MatrixViews Model.MatrixHistory Proofs.C12Partition Proofs.C11Part Proofs.C11UndoP.
+From EasyML Require Import Model.MatrixViews Model.MatrixHistory Proofs.C12Partition Proofs.C11Part Proofs.C11UndoP Proofs.C11UndoWithP.
 Import ListNotations.
 Open Scope N_scope.
 
@@ -99,6 +99,22 @@ Theorem C11_insert_remove_column_undo : forall (T : Type) (s : matrix T) j v, In
   abs (impl_run s [OInsertColumn j v; ORemoveColumn j]) = abs s /\
   Inv (impl_run s [OInsertColumn j v; ORemoveColumn j]).
 Proof. exact @insert_remove_column_undo. Qed.
+
+(* ... the same for the iterator-fed insertions (the iterator may offer MORE values than needed: only the
+   first columns (rows) of them are consumed into the matrix) *)
+Theorem C11_insert_with_remove_row_undo : forall (T : Type) (s : matrix T) i vs,
+  Inv s -> i <= m_rows s -> m_cols s <= nlen vs ->
+  all_fit (abs s) [OInsertRowWith i vs; ORemoveRow i] ->
+  abs (impl_run s [OInsertRowWith i vs; ORemoveRow i]) = abs s /\
+  Inv (impl_run s [OInsertRowWith i vs; ORemoveRow i]).
+Proof. exact @insert_with_remove_row_undo. Qed.
+
+Theorem C11_insert_with_remove_column_undo : forall (T : Type) (s : matrix T) j vs,
+  Inv s -> j <= m_cols s -> m_rows s <= nlen vs ->
+  all_fit (abs s) [OInsertColumnWith j vs; ORemoveColumn j] ->
+  abs (impl_run s [OInsertColumnWith j vs; ORemoveColumn j]) = abs s /\
+  Inv (impl_run s [OInsertColumnWith j vs; ORemoveColumn j]).
+Proof. exact @insert_with_remove_column_undo. Qed.
 
 (* one operation on the flat form of any non-empty rectangle m: the result is the flat form of
    the specified list of rows, which is again a non-empty rectangle *)
@@ -255,6 +271,8 @@ Print Assumptions C11_all_fit_bounded.
 Print Assumptions C11_final_state.
 Print Assumptions C11_insert_remove_row_undo.
 Print Assumptions C11_insert_remove_column_undo.
+Print Assumptions C11_insert_with_remove_row_undo.
+Print Assumptions C11_insert_with_remove_column_undo.
 Print Assumptions C11_step.
 Print Assumptions C11_observations.
 Print Assumptions C11_iteration_orders.
